@@ -430,6 +430,13 @@ pub fn run(tier: Tier) -> i32 {
         // (name, document, None = the output is the input byte for byte / Some(fragment the output must hold))
         ("namespace-by-entity", format!("<!DOCTYPE svg [<!ENTITY ns_svg \"{NS}\">]><svg xmlns=\"&ns_svg;\" width=\"5\"><rect wh=\"3\" class=\"b  a\"/></svg>"), None),
         ("namespace-by-entity/illustrator-header", format!("<?xml version=\"1.0\" encoding=\"utf-8\"?>\n<!DOCTYPE svg PUBLIC \"-//W3C//DTD SVG 1.1//EN\" \"http://www.w3.org/Graphics/SVG/1.1/DTD/svg11.dtd\" [\n\t<!ENTITY ns_svg \"{NS}\">\n\t<!ENTITY ns_xlink \"http://www.w3.org/1999/xlink\">\n]>\n<svg version=\"1.1\" xmlns=\"&ns_svg;\" xmlns:xlink=\"&ns_xlink;\" width=\"5\"><rect wh=\"3\"/></svg>\n"), None),
+        // sixth review round
+        ("real-svg/quote-entity-in-attribute", format!("<!DOCTYPE svg [<!ENTITY q '\"'>]><svg xmlns=\"{NS}\"><rect a=\"x&q;y\"/></svg>"), None),
+        ("real-svg/long-entity-chain", format!("<!DOCTYPE svg [<!ENTITY e0 \"x\">{}]><svg xmlns=\"{NS}\"><text>&e20;</text></svg>", (1..=20).map(|i| format!("<!ENTITY e{i} \"&e{};\">", i - 1)).collect::<String>()), None),
+        ("embedded/quote-entity-in-attribute", format!("<!DOCTYPE svg [<!ENTITY q '\"'>]><svg><svg xmlns=\"{NS}\"><rect a=\"x&q;y\"/></svg></svg>"), Some(format!("<svg xmlns=\"{NS}\"><rect a=\"x&quot;y\"/></svg>"))),
+        ("embedded/character-reference-in-entity-value", format!("<!DOCTYPE svg [<!ENTITY lt \"&#38;#60;\">]><svg><svg xmlns=\"{NS}\"><text>a &lt; b</text></svg></svg>"), Some(format!("<svg xmlns=\"{NS}\"><text>a &#60; b</text></svg>"))),
+        ("embedded/entity-after-pi-with-apostrophe", format!("<!DOCTYPE svg [<?pi it's ?><!ENTITY x \"right\">]><svg><svg xmlns=\"{NS}\"><text>&x;</text></svg></svg>"), Some(format!("<svg xmlns=\"{NS}\"><text>right</text></svg>"))),
+        ("embedded/entity-declared-inside-pi-is-not-one", format!("<!DOCTYPE svg [<?pi <!ENTITY x \"WRONG\"> ?><!ENTITY x \"right\">]><svg><svg xmlns=\"{NS}\"><text>&x;</text></svg></svg>"), Some(format!("<svg xmlns=\"{NS}\"><text>right</text></svg>"))),
         ("embedded/entity-in-start-tag", format!("<!DOCTYPE svg [<!ENTITY w \"10\">]><svg><svg xmlns=\"{NS}\" width=\"&w;\"/></svg>"), Some(format!("<svg xmlns=\"{NS}\" width=\"10\"/>"))),
         ("embedded/entity-in-content", format!("<!DOCTYPE svg [<!ENTITY w \"10\">]><svg><svg xmlns=\"{NS}\"><rect width=\"&w;\"/><text>&w;</text></svg></svg>"), Some(format!("<svg xmlns=\"{NS}\"><rect width=\"10\"/><text>10</text></svg>"))),
     ];
